@@ -476,6 +476,10 @@ def gen_layout_file(rng):
     if 'relro' in spans and rng.random() < 0.7:
         a, b, _ = spans['relro']
         segs.append(elfgen.Seg(type=0x6474e552, flags=4, offset=a, vaddr=base + a, filesz=b - a, align=1))
+    # segment types without a name: the OS and processor ranges (and their limits) are shown as LOOS+n / LOPROC+n
+    if len(segs) < nseg_max and rng.random() < 0.5:
+        segs.append(elfgen.Seg(type=rng.choice([0x60000000, 0x60001234, 0x6fffffff, 0x70000000 + 0x7777, 0x7fffffff]), flags=4, offset=0, vaddr=0,
+                               filesz=0, memsz=0, align=1))
     while len(segs) < nseg_max:
         segs.append(elfgen.Seg(type=0, flags=0, offset=0, vaddr=0, filesz=0, memsz=0, align=0))
     entry = next(s.addr for s in secs if s.name == '.text')
@@ -504,6 +508,13 @@ def gen_dump_file(rng):
             elfgen.Sec('.comment', 1, flags=0x30, data=strs, entsize=1),
             elfgen.Sec('.empty', 1, flags=2, data=b''),
             elfgen.Sec('.bss', 8, flags=3, data=b'', size=16)]
+    # two sections of one name (COMDAT copies) and relocations against exactly one of the dumped sections: dumps by
+    # number must tell them apart ('NOTE: This section has relocations against it ...')
+    E = '<' if le else '>'
+    secs.append(elfgen.Sec('.text', 1, flags=6, data=bytes((b & 0x7f) if (b & 0x7f) != 0x7f else 0x42 for b in blob(8)), align=1))
+    target = rng.choice([1, 5])
+    rel = struct.pack(E + ('QQq' if cls == 64 else 'IIi'), 0, 0, 0)
+    secs.append(elfgen.Sec('.rela.text', 4, flags=0x40, data=rel, link=0, info=target, entsize=24 if cls == 64 else 12, align=8))
     img, info = elfgen.build(cls=cls, le=le, machine=machine, etype=1, sections=secs)
     return img, dict(cls=cls, text=len(text), strings=len(strs))
 
@@ -547,6 +558,10 @@ def gen_sections_file(rng):
         raw = b'some string\0' * 20
         chdr = struct.pack(E + ('IIQQ' if is64 else 'III'), *((1, 0, len(raw), 1) if is64 else (1, len(raw), 1)))
         secs.append(elfgen.Sec('.debug_str', 1, flags=0x830, data=chdr + zlib.compress(raw), entsize=1, align=8 if is64 else 4))
+    if rng.random() < 0.5:
+        # section types without a name: OS, processor and user ranges (and their limits) are shown as LOOS+n / LOPROC+n / LOUSER+n
+        secs.append(elfgen.Sec('.vendor', rng.choice([0x60000000, 0x60000abc, 0x70000000 + 0x7777, 0x7fffffff, 0x80000000, 0x80000123, 0xffffffff]),
+                               data=blob(4)))
     if many:
         for i in range(rng.choice([95, 130])):
             secs.append(elfgen.Sec('.text.f%d' % i, 1, flags=6, data=blob(2), align=2))
@@ -609,3 +624,53 @@ def gen_header_file(rng, machines, osabis):
                              entry=rng.choice([0, 0x1000, 0x401000, 2 ** (cls - 1) + 0x10]), eflags=eflags, sections=secs, segments=segs,
                              esc_shnum=esc in (1, 3), esc_shstrndx=esc in (2, 3))
     return img, dict(cls=cls, le=le, machine=machine, osabi=osabi, etype=etype, pie=pie, eflags=eflags, escapes=esc)
+
+
+def gen_attrs_file(rng, arm_vals, riscv_vals):
+    """-> (image, description): an .ARM.attributes / .riscv.attributes section with file, section and symbol scopes,
+    number lists with multi-byte ULEB128 values, string-valued tags and values inside and outside the described ranges.
+    arm_vals / riscv_vals: {tag number: [values with a description]}."""
+    from .leb import uleb
+    v = getattr(rng, 'variant', 0) or 0
+    arm = v % 3 != 2
+    le = rng.random() < 0.7
+    I = '<I' if le else '>I'
+    vals = arm_vals if arm else riscv_vals
+    ntbs = {4, 5, 67} if arm else {5}
+
+    def attrs(n):
+        out = b''
+        for t in rng.sample(sorted(vals), min(n, len(vals))):
+            if t in ntbs:
+                out += uleb(t) + rng.choice([b'ARM v7', b'cortex-a9', b'rv64i2p0_m2p0', b'2.09']) + b'\0'
+            elif arm and t == 32:
+                out += uleb(t) + uleb(rng.choice([0, 1, 2])) + b'vend\0'
+            elif arm and t == 65:
+                out += uleb(t) + uleb(6) + uleb(rng.choice(vals[6] or [10])) + b'\0'
+            elif not arm and t == 4:
+                out += uleb(t) + uleb(rng.choice([4, 8, 16, 32]))
+            elif vals[t]:
+                out += uleb(t) + uleb(rng.choice(vals[t]))
+            else:
+                out += uleb(t) + uleb(rng.choice([0, 1, 2]))
+        return out
+    subs = b''
+    shape = []
+    for k in range(rng.choice([1, 2, 3])):
+        scope = 1 if k == 0 else rng.choice([2, 3])
+        nums = b''
+        if scope != 1:
+            lst = [rng.choice([1, 3, 127, 128, 200, 5, 16384]) for _ in range(rng.choice([1, 2, 4]))]
+            nums = b''.join(uleb(x) for x in lst) + b'\0'
+            shape.append((scope, lst))
+        else:
+            shape.append((1, None))
+        body = nums + attrs(rng.choice([1, 3, 6]))
+        subs += bytes([scope]) + struct.pack(I, 5 + len(body)) + body
+    blk = (b'aeabi' if arm else b'riscv') + b'\0' + subs
+    sec = b'A' + struct.pack(I, 4 + len(blk)) + blk
+    cls = 32 if arm else 64
+    img = elfgen.build(cls=cls, le=le, machine=40 if arm else 243, etype=1, eflags=0x05000000 if arm else 0,
+                       sections=[elfgen.Sec('.text', 1, flags=6, data=b'\0' * 4),
+                                 elfgen.Sec('.ARM.attributes' if arm else '.riscv.attributes', 0x70000003, data=sec)])[0]
+    return img, dict(arch='arm' if arm else 'riscv', le=le, scopes=shape)
